@@ -247,6 +247,7 @@ type Obs struct {
 	KeyPrefix  []int    `json:"key_prefix,omitempty"`   // the bytes the keyset put in front of the signature
 	ProofPfx   []int    `json:"proof_prefix,omitempty"` // ... and in front of the derived proof
 	SigChecks  []string `json:"sig_checks,omitempty"`
+	Dump       string   `json:"dump,omitempty"`
 	KeyPrefixes  [][]int `json:"keyset_prefixes,omitempty"` // output prefix of every key of the keyset
 	GensDistinct int     `json:"generators_distinct"`      // 0 not observed, 1 h0, h_1..h_n pairwise distinct, 2 not
 	Details    []string `json:"details,omitempty"`
@@ -266,7 +267,48 @@ func partyOf(c *Case) party {
 
 func runCase(kind string, c *Case, tr *hx.Trace) { runCaseOpt(kind, c, tr, true) }
 
+// runCaseOpt runs the case.  A rejected HONEST signature / derivation / proof is re-tried once with fresh randomness
+// (Sign and DeriveProof are randomised): if the second attempt is clean, the first one was a non-reproducible
+// failure of the implementation - it is reported under its own narrow signature (a known finding) together with the
+// material needed to analyse it, and the clean attempt is the case's record.  A change that breaks completeness fails
+// both attempts and is reported as it is.
 func runCaseOpt(kind string, c *Case, tr *hx.Trace, withCoq bool) {
+	honestFailure := func(r *hx.Record) bool {
+		return r.Oracle == "fail" && (r.Sig == "honest-reject" || r.Sig == "sign-verify-reject" || r.Sig == "derive-reject")
+	}
+
+	var first []*hx.Record
+
+	runCaseOnce(kind, c, withCoq, func(r *hx.Record) { first = append(first, r) })
+
+	if len(first) != 1 || !honestFailure(first[0]) {
+		for _, r := range first {
+			tr.Put(r)
+		}
+
+		return
+	}
+
+	var second []*hx.Record
+
+	runCaseOnce(kind, c, withCoq, func(r *hx.Record) { second = append(second, r) })
+
+	if len(second) != 1 || honestFailure(second[0]) {
+		tr.Put(first[0]) // reproducible: a real completeness failure
+
+		return
+	}
+
+	f := first[0]
+	f.Coq = ""
+	f.Detail = "NOT REPRODUCED on a second attempt with fresh randomness; first attempt: " + f.Sig + ": " + f.Detail
+	f.Sig = "unreproducible-honest-reject"
+	f.Kind = kind + ":retry"
+	tr.Put(f)
+	tr.Put(second[0])
+}
+
+func runCaseOnce(kind string, c *Case, withCoq bool, put func(*hx.Record)) {
 	p := partyOf(c)
 	msgs := msgsOf(c.Msgs)
 	n := len(msgs)
@@ -310,6 +352,16 @@ func runCaseOpt(kind string, c *Case, tr *hx.Trace, withCoq bool) {
 		return err
 	})
 	if obs.SignVerify != vAccept {
+		v3, _ := fenced(func() error { return p.verify(msgsOf(c.Msgs), sig) })
+		obs.Dump = fmt.Sprintf("signature verified again: %s; sig=%x", v3, sig)
+
+		if pp2, ok := p.(*primParty); ok {
+			obs.Dump += fmt.Sprintf(" pub=%x", pp2.pub)
+		}
+
+		if tp, ok := p.(*tinkParty); ok {
+			obs.Dump += fmt.Sprintf(" pub=%x", tp.pubBytes)
+		}
 		fail("sign-verify-"+obs.SignVerify, "a fresh signature over the vector does not verify")
 	}
 
@@ -414,7 +466,7 @@ func runCaseOpt(kind string, c *Case, tr *hx.Trace, withCoq bool) {
 	})
 	if obs.Derive != vAccept {
 		fail("derive-"+obs.Derive, "DeriveProof failed for a non-empty subset: "+dd)
-		tr.Put(rec)
+		put(rec)
 
 		return
 	}
@@ -428,7 +480,7 @@ func runCaseOpt(kind string, c *Case, tr *hx.Trace, withCoq bool) {
 
 	if len(proof) < pfxLen || len(sig) < pfxLen {
 		fail("prefix-missing", "signature or proof shorter than the keyset's output prefix")
-		tr.Put(rec)
+		put(rec)
 
 		return
 	}
@@ -583,6 +635,19 @@ func runCaseOpt(kind string, c *Case, tr *hx.Trace, withCoq bool) {
 		vs[i] = v
 		obs.Details = append(obs.Details, d)
 
+		if a.Kind == "honest" && v != vAccept { // keep the material of a rejected honest proof
+			v2, _ := fenced(func() error { return p.verifyProof(msgsOf(supplied), append([]byte{}, proof...), nn, other) })
+			v3, _ := fenced(func() error { return p.verify(msgsOf(c.Msgs), sig) })
+			obs.Dump = fmt.Sprintf("same proof verified again: %s; signature verified again: %s; nonce=%x sig=%x proof=%x", v2, v3, nonce, sig, proof)
+			if pp2, ok := p.(*primParty); ok {
+				obs.Dump += fmt.Sprintf(" pub=%x", pp2.pub)
+			}
+
+			if tp, ok := p.(*tinkParty); ok {
+				obs.Dump += fmt.Sprintf(" pub=%x", tp.pubBytes)
+			}
+		}
+
 		if v != expect {
 			lbl := a.Label
 			if lbl == "" {
@@ -611,7 +676,7 @@ func runCaseOpt(kind string, c *Case, tr *hx.Trace, withCoq bool) {
 		rec.Coq = coqCase(c, obs, proof)
 	}
 	rec.Class, rec.Trivial, rec.Dist = classify(c, obs)
-	tr.Put(rec)
+	put(rec)
 }
 
 func min(a, b int) int {
@@ -1246,7 +1311,15 @@ func main() {
 			must(json.Unmarshal(b, &cc))
 			runCred("replay", cc.Case, tr)
 		} else if c.Case != nil {
-			runCase("replay", c.Case, tr)
+			reps := 1
+			if v := os.Getenv("C17_STRESS"); v != "" { // development aid: repeat the case (fresh randomness each time)
+				fmt.Sscanf(v, "%d", &reps)
+				c.Case.Attacks = c.Case.Attacks[:1]
+			}
+
+			for i := 0; i < reps; i++ {
+				runCase("replay", c.Case, tr)
+			}
 		}
 
 		return
@@ -1299,7 +1372,7 @@ func main() {
 	// 3. random vectors of 1..32 messages, random subsets (given in random order), both levels
 	nRandom, nAlter, nAll := 110, 24, 1
 	if thorough {
-		nRandom, nAlter, nAll = 2000, 250, 8
+		nRandom, nAlter, nAll = 1500, 200, 6
 	}
 
 	for i := 0; i < nRandom; i++ {
@@ -1369,7 +1442,7 @@ func main() {
 
 	nPref := 1
 	if thorough {
-		nPref = 12
+		nPref = 8
 	}
 
 	for _, sh := range shapes {
@@ -1444,7 +1517,7 @@ func main() {
 	// 7. structurally crafted proofs and the verifier's challenge transcript
 	nForge := 24
 	if thorough {
-		nForge = 300
+		nForge = 200
 	}
 
 	for i := 0; i < nForge; i++ {
@@ -1465,7 +1538,7 @@ func main() {
 	// 6. credential level: generated credentials x reveal frames through GenerateBBSSelectiveDisclosure + ParseCredential
 	nCred := 40
 	if thorough {
-		nCred = 400
+		nCred = 250
 	}
 
 	for i := 0; i < nCred; i++ {
